@@ -13,7 +13,7 @@ open(p, "w").write(s.replace(old, new))
 PY
 [ $? -ne 0 ] && { echo "PATCH FAILED"; exit 1; }
 echo "== $name: unit tests"
-(cd /tmp/wt_c05 && /venv/bin/python -m pytest -q -p no:cacheprovider --timeout=900 ipv8/test/messaging/anonymization ipv8/test/test_community.py 2>&1 | tail -1)
+(cd /tmp/wt_c05 && /venv/bin/python -m pytest -q -p no:cacheprovider --timeout=900 ipv8/test/messaging/anonymization 2>&1 | tail -1)
 echo "== $name: check"
 cd /verif && VERIF_REPO=/tmp/wt_c05 ./check C05 quick | cut -c1-600
 echo "exit=${PIPESTATUS[0]}"
